@@ -1,7 +1,7 @@
 """C20 adapter: drives the node binary built from /repo's working tree and records what it observed
 for spec/FRCli.tla.  Encoding of an argument (18-digit scaled decimals, kebab-case enums, RFC3339
 times, coins as <amount><denom>) is the adapter's business, not the property's."""
-import json, os, re, shutil, subprocess, time, glob, signal
+import json, os, re, shutil, subprocess, time, glob, signal, sys
 from fractions import Fraction
 
 GOENV = dict(os.environ, GOFLAGS="-mod=mod", GOPROXY="off", GOSUMDB="off", GOTOOLCHAIN="local")
@@ -157,3 +157,104 @@ def observe(binary, home, behaviours, nmsgs, addrs):
             if n >= nmsgs:
                 return recs
     return recs
+
+
+def node_session(binary, home, addrs_unused=None, blocks_timeout=60):
+    """Single-node chain on local ports: create auctions through the CLI, then run every query command.
+    Returns records of kind "tx" and "query" (exit status, what was displayed, what the specification expects)."""
+    import socket
+    recs = []
+    base = 20000 + (os.getpid() % 20000)
+    rpc, p2p, grpc = base, base + 1, base + 2
+    node = "tcp://127.0.0.1:%d" % rpc
+
+    def cli(*a, timeout=60):
+        return run([binary, "--home", home] + list(a), timeout=timeout)
+    code, out, err = cli("init", "n1", "--chain-id", "verif-node")
+    if code != 0:
+        return [{"kind": "node", "cmd": "init", "exit": code, "note": err[-300:]}]
+    for k in ("val", "alice"):
+        cli("keys", "add", k, "--keyring-backend", "test")
+    _, val, _ = cli("keys", "show", "val", "-a", "--keyring-backend", "test")
+    _, alice, _ = cli("keys", "show", "alice", "-a", "--keyring-backend", "test")
+    val, alice = val.strip(), alice.strip()
+    cli("genesis", "add-genesis-account", val, "1000000000000stake")
+    cli("genesis", "add-genesis-account", alice, "1000000000stake,1000000denoma,1000000denomb")
+    cli("genesis", "gentx", "val", "1000000000stake", "--chain-id", "verif-node", "--keyring-backend", "test")
+    code, out, err = cli("genesis", "collect-gentxs")
+    gp = os.path.join(home, "config", "genesis.json")
+    g = json.load(open(gp))
+    g["app_state"]["fundraising"]["params"]["auction_creation_fee"] = []
+    json.dump(g, open(gp, "w"))
+    cp = os.path.join(home, "config", "config.toml")
+    t = open(cp).read().replace('timeout_commit = "5s"', 'timeout_commit = "300ms"')
+    open(cp, "w").write(t)
+    log = open(os.path.join(home, "node.log"), "w")
+    proc = subprocess.Popen([binary, "start", "--home", home, "--minimum-gas-prices", "0stake", "--rpc.laddr", node,
+                             "--grpc.address", "127.0.0.1:%d" % grpc, "--api.enable=false", "--p2p.laddr", "tcp://127.0.0.1:%d" % p2p,
+                             "--grpc-web.enable=false"], stdout=log, stderr=subprocess.STDOUT)
+    try:
+        t0 = time.time()
+        up = False
+        while time.time() - t0 < blocks_timeout:
+            code, out, err = cli("status", "--node", node, timeout=10)
+            m = re.search(r'"latest_block_height":"(\d+)"', out + err)
+            if code == 0 and m and int(m.group(1)) >= 2:
+                up = True
+                break
+            time.sleep(0.5)
+        recs.append({"kind": "node", "cmd": "start", "exit": 0 if up else 1, "note": "" if up else "no blocks within %ds" % blocks_timeout})
+        if not up:
+            return recs
+        now = int(time.time())
+        iso = lambda x: time.strftime("%Y-%m-%dT%H:%M:%SZ", time.gmtime(x))
+        start, end, rel = now + 3600, now + 7200, now + 10800
+        price = 1500000000000000000
+        argv = ["create-fixed-price-auction", str(price), "1000denoma", "denomb",
+                json.dumps({"release_time": iso(rel), "weight": "1000000000000000000"}), iso(start), iso(end)]
+        code, out, err = cli("tx", "fundraising", *argv, "--from", "alice", "--keyring-backend", "test", "--chain-id", "verif-node",
+                             "--node", node, "-y", "-o", "json")
+        txok = code == 0 and '"code":0' in out.replace(" ", "")
+        recs.append({"kind": "tx", "cmd": argv[0], "exit": 0 if txok else 1, "argv": argv, "note": (err or out)[-300:] if not txok else ""})
+        time.sleep(2.0)
+        expected_auction = {"id": "0", "auctioneer": alice, "start_price": "1.5", "selling_coin": "1000denoma", "paying_coin_denom": "denomb",
+                            "status": "AUCTION_STATUS_STANDBY", "remaining": "1000denoma", "start": iso(start), "end": iso(end), "release": iso(rel)}
+
+        def show_auction(a):
+            b = a.get("base_auction", a)
+            coin = lambda c: "%s%s" % (c.get("amount"), c.get("denom"))
+            dec = lambda d: str(Fraction(d)).replace("3/2", "1.5")
+            return {"id": str(b.get("id", "0")), "auctioneer": b.get("auctioneer"), "start_price": dec(b.get("start_price", "0")),
+                    "selling_coin": coin(b.get("selling_coin", {})), "paying_coin_denom": b.get("paying_coin_denom"), "status": b.get("status"),
+                    "remaining": coin(a.get("remaining_selling_coin", {})), "start": b.get("start_time"), "end": (b.get("end_times") or [None])[0],
+                    "release": (b.get("vesting_schedules") or [{}])[0].get("release_time")}
+        queries = [("params", [], lambda j: {"fee": j.get("params", {}).get("auction_creation_fee", []), "period": j.get("params", {}).get("extended_period")},
+                    {"fee": [], "period": 1}),
+                   ("get-auction", ["0"], lambda j: show_auction(j.get("auction", {})), expected_auction),
+                   ("list-auction", [], lambda j: [show_auction(a) for a in j.get("auction", [])], [expected_auction]),
+                   ("list-allowed-bidder", [], lambda j: j.get("allowed_bidder", []), []),
+                   ("list-bid", [], lambda j: j.get("bid", []), []),
+                   ("list-vesting-queue", [], lambda j: j.get("vestingQueue", j.get("vesting_queue", [])), []),
+                   ("get-auction", ["7"], None, "not found"),
+                   ("get-bid", ["0", "1"], None, "not found"),
+                   ("get-allowed-bidder", ["0", alice], None, "not found")]
+        for cmd, args, view, exp in queries:
+            code, out, err = cli("query", "fundraising", cmd, *args, "--node", node, "-o", "json")
+            rec = {"kind": "query", "cmd": cmd, "argv": [cmd] + args, "exit": code, "note": (err or "")[-400:].strip(), "expected": json.dumps(exp, sort_keys=True), "answer": ""}
+            if view is None:     # the object does not exist: the command must report that, not succeed
+                rec["answer"] = json.dumps("not found") if code != 0 and ("not found" in (err + out).lower() or "notfound" in (err + out).lower()) else (out or err)[-200:]
+                rec["exit"] = 0 if rec["answer"] == json.dumps("not found") else (code or 1)
+            elif code == 0:
+                try:
+                    rec["answer"] = json.dumps(view(json.loads(out)), sort_keys=True)
+                except Exception as e:
+                    rec["answer"] = "unparsable: %s %s" % (e, out[:200])
+            recs.append(rec)
+        return recs
+    finally:
+        proc.terminate()
+        try:
+            proc.wait(timeout=15)
+        except Exception:
+            proc.kill()
+        log.close()
